@@ -35,10 +35,12 @@ PARTIAL = ["C08_factor is proved as C08_factor_code (rdec = decode ; rval: all s
            "schemas without by-name references under the computable condition `agree`) + C08_factor_zone_refs_any_height_partial (schemas with by-name references / "
            "recursive types, values of ANY height, under the computable condition `agree_all`: a finite set of (writer, reader) schema pairs closed under the pairs visited "
            "next, each pair with no empty reader union, no empty-string enum default, well-formed JSON defaults; C08_factor_zone_refs_partial is the depth-indexed form "
-           "`agreen k`, monotone in k); that the code's match verdicts / reader-union branch choice / record guard coincide with the specification's is proved; "
-           "reader == writer through the code is proved with references too (C08_identity_code_refs_any_height_partial); all for ANY reader options; "
-           "missing: logicalType annotations on non-primitive types, nested unions. The full statement was false of the "
-           "code before the repairs (C08_old_code_refuted_*, about model/ResolveOld.v)"]
+           "`agreen k`, monotone in k); unknown logicalType annotations on array / map / named-type nodes are proved transparent for the code and for the rules "
+           "(C08_code_ignores_annotations, C08_spec_ignores_annotations: all schemas), so both zone theorems hold with the zone checked on the schemas without them "
+           "(C08_factor_zone_annot_partial, C08_factor_zone_refs_annot_partial); that the code's match verdicts / reader-union branch choice / record guard coincide with "
+           "the specification's is proved; reader == writer through the code is proved with references too (C08_identity_code_refs_any_height_partial); all for ANY "
+           "reader options. Not covered: unions immediately containing unions - these are no Avro schemas (C08_no_union_behind_reference: none is reached through a "
+           "reference either). The full statement was false of the code before the repairs (C08_old_code_refuted_*, about model/ResolveOld.v)"]
 
 SRE = "SchemaResolutionError"
 
@@ -944,7 +946,7 @@ def compare(ctx, c, route, res, mtext, with_rest, corr="corr:resolve"):
 
 
 def run(ctx):
-    n = 1500 if ctx.quick() else 12000
+    n = 1350 if ctx.quick() else 12000
     cases = gen_cases(ctx, n)
     prepared, exprs, index = [], [], {}
     skipped = 0
@@ -989,7 +991,7 @@ def run(ctx):
             sp = mA.split(";")[1]
             if sp.startswith("V:"):
                 check_stream(ctx, c, sp)
-    run_layouts(ctx, 400 if ctx.quick() else 4000)
+    run_layouts(ctx, 350 if ctx.quick() else 4000)
     ctx.notes["specification_outcomes(schemaless route)"] = hist
     ctx.notes["schemaless_equal_schema_shortcut"] = shortcuts
     for c, p in prepared[len(WITNESSES) * 2::max(1, len(prepared) // 5)]:
